@@ -42,6 +42,10 @@ Defects of the unchanged tree this check reports (drafted in findings-draft/C08.
   * hostname.py:99-105  `A ... A-B` / `A ... B-A` (A, B hosts of the domain): replacing the earlier, shorter match A
     everywhere destroys the longer hyphen-compound match, B survives          features {"kind":"host","position":
     "hyphen-compound-after-earlier-occurrence"}  (needs three tokens: thorough tier; the witness runs in every tier)
+  * keyword.py/password.py interplay  `password=S1-srv[1]-password: S3`: the keyword `srv[1]` (non-secret-class characters)
+    is replaced by `keyword3` BEFORE password masking, the first secret run then reaches over the second `password`
+    key and S3 survives; without the keyword configured S3 is masked.        features {"kind":"pw","position":
+    "key-inside-earlier-secret-run-after-keyword-substitution"}  (three tokens: thorough tier)
 """
 import itertools
 import os
@@ -52,8 +56,8 @@ from mc.result import Result
 ID = "C08"
 LEVEL = "exploration"
 RULE = ("every content of <= 2 lines, each line d0 t1 d1 t2 d2 [t3 d3] with t_i from the token alphabet T "
-        "(27 tokens: IPv4 incl. prefix-related/containing/loopback, host names of web01.corp.test, MACs incl. "
-        "all-zero/broadcast, keywords, plain/regex/POSIX/backslash-class/backslash-anchor pattern words, 5 password "
+        "(30 tokens: IPv4 incl. prefix-related/containing/loopback, host names of web01.corp.test, MACs incl. "
+        "all-zero/broadcast and a 00/ff-only one that is neither, keywords incl. two with regex metacharacters, plain/regex/POSIX/backslash-class/backslash-anchor pattern words, 5 password "
         "forms, a neutral word) and d_i from the delimiter set D (inner delimiters never empty; directly after an "
         "IPv4 token additionally the word characters 'x' and '_'), x every configuration with <= 1 deviation "
         "from everything-on, x path; a case is non-trivial when it holds >= 2 sensitive tokens and the cleaner "
@@ -71,7 +75,8 @@ ASSUMPTIONS = [
 FQDN = "web01.corp.test"
 SHORT = "web01"
 DOMAIN = "corp.test"
-KEYWORDS = ["SECRETKW", "kw-1"]
+# the last two read differently as regular expressions than as literals: a keyword is a literal, not a pattern
+KEYWORDS = ["SECRETKW", "kw-1", "kw+1", "srv[1]"]
 # configured exclusion patterns and the oracle's own, independently written matcher for each
 PAT_PLAIN = ["PAT"]
 PAT_REGEX = ["PAT", "P[0-9]+T", "Q[[:digit:]]+R", "^192\\.168\\.", "K\\d\\dZ", "\\bBND\\b"]
@@ -91,7 +96,8 @@ TOKENS = (
     [["ip", t] for t in ("10.1.1.1", "10.1.1.10", "110.1.1.1", "192.168.0.254", "255.255.255.255")]
     + [["lo", "127.0.0.1"]]
     + [["host", t] for t in (SHORT, FQDN, "db.corp.test", "a.b.corp.test")]
-    + [["mac", t] for t in ("aa:bb:cc:dd:ee:ff", "AA-BB-CC-DD-EE-FF")]
+    # the third is made of 00/ff octets only but is neither all-zero nor broadcast: it must be obfuscated
+    + [["mac", t] for t in ("aa:bb:cc:dd:ee:ff", "AA-BB-CC-DD-EE-FF", "00:ff:00:ff:00:ff")]
     + [["mac0", t] for t in ("00:00:00:00:00:00", "ff:ff:ff:ff:ff:ff")]
     + [["kw", t] for t in KEYWORDS]
     + [["pat", t] for t in ("PAT", "P12T", "Q7R", "K47Z", "BND")]
@@ -150,7 +156,9 @@ BOUNDS = {
                  "singles_all_cfgs": "d0,d2 in full D via all three paths",
                  "pairs_file_paths": "d0=d2=line boundary, d1 in full D minus boundary; clean_file and provider write; all cfgs",
                  "two_lines_default_cfg": "both lines single-token with d0,d2 in {boundary, space, ':'}; all three paths",
-                 "triples_default_cfg": "all 27^3 token triples, d0,d3 in D_RED, d1,d2 in D_RED minus boundary; clean_content",
+                 "triples_default_cfg": "all 30^3 token triples, d0,d3 in {boundary, space, ':'}, d1,d2 in D_RED minus boundary; clean_content "
+                                        "(outer delimiters trimmed from D_RED when the alphabet grew from 25 to 30 tokens; single-token "
+                                        "boundaries are covered over full D by singles and pairs)",
                  "ipv4_right_neighbours": "directly after an IPv4 token every delimiter choice is extended by 'x' and '_'",
                  "D_RED": D_RED, "D_FULL": D_FULL},
 }
@@ -287,11 +295,15 @@ def _matches(cfg, line):
     return False
 
 
-def _shadowed(struct, i_elem):
+def _shadowed(struct, i_elem, kw_substituted=False):
     """True when the `password` key of the token at struct[i_elem] lies inside the secret-class run that follows
     an earlier password token on the same line: every character between the end of that earlier token (which
     ends with its secret) and the start of this one is of the secret class. Then the regular expression, and the
-    documented class, make it part of the earlier secret - it is not a key."""
+    documented class, make it part of the earlier secret - it is not a key.
+    With kw_substituted the run is judged as it looks once the configured keywords on the line have been replaced by
+    `keywordN` (secret-class characters): a keyword containing other characters (`srv[1]`) interrupts the run in the
+    input but no longer in what the password expression gets to see.  That variant is only used to NAME the position
+    of a survivor (feature for a recorded defect), never to excuse it."""
     between = ""
     for j in range(i_elem - 1, -1, -1):
         x = struct[j]
@@ -300,7 +312,7 @@ def _shadowed(struct, i_elem):
             continue
         if x[0] == "pw" and all(ch in SECRET_CLASS for ch in between):
             return True
-        between = x[1] + between
+        between = ("keyword0" if (kw_substituted and x[0] == "kw") else x[1]) + between
         if not all(ch in SECRET_CLASS for ch in between):
             return False
     return False
@@ -495,7 +507,10 @@ def oracle(cfg, structs, in_lines, out_lines, cleaner):
         elif kind == "pw":
             if pw_on:
                 if alive and not _shadowed(st, ei):
-                    v.append(("password:secret-survives", "secret %s masked" % o["needle"], raw, feats))
+                    pos = ("key-inside-earlier-secret-run-after-keyword-substitution"
+                           if (kw_on and _shadowed(st, ei, kw_substituted=True)) else "ordinary")
+                    v.append(("password:secret-survives", "secret %s masked" % o["needle"], raw,
+                              {"kind": "pw", "position": pos}))
             elif isolated and oline is not None and t not in oline:
                 v.append(("exemption:not-honoured", "%s unchanged (spec exempt from password masking)" % t, oline, feats))
         elif kind == "pat":
@@ -675,10 +690,10 @@ def run_unit(unit, tier):
             cfg = cfgs[0]
             t1, t2 = unit["t1"], unit["t2"]
             for t3 in range(NT):
-                for d0 in D_RED:
+                for d0 in D_MIN:
                     for d1 in _after(t1, D_RED[1:]):
                         for d2 in _after(t2, D_RED[1:]):
-                            for d3 in _after(t3, D_RED):
+                            for d3 in _after(t3, D_MIN):
                                 go("content", cfg, [mk_line([t1, t2, t3], [d0, d1, d2, d3])])
         elif part == "hosttriples":
             cfg = cfgs[0]
@@ -704,7 +719,7 @@ def run_unit(unit, tier):
 
 TECHNIQUE = ("bounded exhaustive enumeration of token/delimiter lines x single-deviation configurations x write paths, "
              "executed against the real Cleaner; survivor oracle after masking the substitutes reported by mapping()")
-LEVEL_TEXT = ("Every line of <= 2 (quick) / <= 3 (thorough) sensitive tokens over 27 tokens and 12 delimiters (+ 'x', '_' after IPv4), every content "
+LEVEL_TEXT = ("Every line of <= 2 (quick) / <= 3 (thorough) sensitive tokens over 30 tokens and 12 delimiters (+ 'x', '_' after IPv4), every content "
               "of <= 2 such lines, under every configuration one switch / one per-spec exemption / one pattern form / one "
               "host-name form away from everything-on, is cleaned by the real code through clean_content, clean_file and "
               "the provider write path, and the output is searched for survivors. No sampling; the claim is 'no survivor "
